@@ -3,7 +3,7 @@ import re
 
 from ..facts import Broken, strip, const, walk, walk_eval, show
 from ..interp import path
-from .. import cfgq
+from .. import cfgq, memrules
 from . import c04
 
 NORMALISERS = {"cif_normalize": 2, "cif_normalize_name": 2, "cif_normalize_item_name": 2, "cif_normalize_table_index": 2}
@@ -336,3 +336,8 @@ def run(prog, chk):
                     r3.ok(key, "a normaliser")
                 else:
                     r3.violation(f.file, f.name, n.get("l"), "normalizer-store:" + key, "map->normalizer receives %s" % show(rr)[:40])
+
+    r4 = chk.rule("R4-respelling-decision", "whether an entry's stored spelling (key_orig) is kept or replaced is decided by comparing the "
+                  "new spelling with that stored spelling, not with the normalised key", primary=False, floor=1)
+    if memrules.keep_or_replace(prog, r4) < 1:
+        raise Broken("the keep-or-replace idiom of cif_map_set_item was not found")
